@@ -373,9 +373,28 @@ func RandomProgram(d Drawer, wgSize int, v5 bool) (*insts.KernelCodeObject, []st
 			p.FlatLoad(op, 16+i, 5)
 		}
 	}
+	// a scalar load of 2 or 4 dwords from the input buffer at a drawn dword offset: with the
+	// buffer's drawn skew it regularly straddles a 64-byte line in unequal parts
+	scalarData := 0
+	if d.Intn(3, "rp.sdata") > 0 {
+		off := uint32(4 * d.Intn(64, "rp.sdata.off"))
+		if d.Intn(2, "rp.sdata.x4") == 0 {
+			p.SLoadDwordX4(28, 8, off)
+			scalarData = 4
+		} else {
+			p.SLoadDwordX2(28, 8, off)
+			scalarData = 2
+		}
+	}
 	// loads are consumed in drawn order behind matching wait counts
 	p.SWaitcnt(uint32(d.Intn(4, "rp.wait")), 15)
 	p.SWaitcnt(0, 15)
+	if scalarData > 0 {
+		p.SWaitcnt(15, 0)
+		for i := 0; i < scalarData; i++ {
+			p.VXorB32(16+i, S(28+i), 16+i)
+		}
+	}
 	nOps := 6 + d.Intn(30, "rp.nops")
 	region := 0
 	open := false
